@@ -458,7 +458,9 @@ static void mode_lobpcg(const Desc& d)
         Rng r((uint64_t) d.i("seed", 1) * 389 + 3 + 7919ULL * (uint64_t) c);
         // block size k = 1 is a recorded finding (the inner generalized solver is built with ncv <= nev and throws): it is
         // exercised only by the fixed descriptor with kfix=1
-        const int k = d.has("kfix") ? (int) d.i("kfix") : 2 + r.below(2);
+        // c % 5 == 2: history 4 below (a second compute() that starts with part of the block already converged) needs k >= 3
+        const bool h4 = !d.has("kfix") && (d.has("lobhist") ? d.i("lobhist") == 4 : c % 5 == 2);
+        const int k = d.has("kfix") ? (int) d.i("kfix") : (h4 ? 3 + r.below(2) : 2 + r.below(2));
         const int n = 5 * k + 6 + r.below(30);
         const bool withB = c % 2 == 1, withT = c % 3 == 2;
         // sparse symmetric A with well separated smallest eigenvalues: diag(1..n)*g + small symmetric coupling; SPD B: tridiagonal
@@ -507,7 +509,7 @@ static void mode_lobpcg(const Desc& d)
         // c % 6 == 4: a tight tolerance (tol * n below sqrt(eps)): the active residual / direction blocks get B-norms below 1e-8
         const double tol = ((c % 6 == 4) ? 1e-10 : ((c % 2) ? 1e-6 : 1e-7)) * (double) scale;
         // one compute() on the object and everything a caller can observe afterwards, against the pencil (AL_, BL_) that is in force
-        auto run_call = [&](const MatL& AL_, const MatL& BL_, int maxit_, double tol_, int withB_, int call)
+        auto run_call = [&](const MatL& AL_, const MatL& BL_, int maxit_, double tol_, int withB_, int call, int nothrowclaim = 0)
         {
             int thr = 0;
             {
@@ -532,7 +534,7 @@ static void mode_lobpcg(const Desc& d)
             if (thr)
             {
                 Line l("Lob");
-                l.i("n", n).i("k", k).i("qn", q((LD) n)).i("withB", withB_).i("withT", withT).i("maxit", maxit_).i("info", -1).i("thr", 1).i("call", call);
+                l.i("n", n).i("k", k).i("qn", q((LD) n)).i("withB", withB_).i("withT", withT).i("maxit", maxit_).i("info", -1).i("thr", 1).i("call", call).i("nc", nothrowclaim);
                 out().put(l);
                 return;
             }
@@ -545,7 +547,7 @@ static void mode_lobpcg(const Desc& d)
             Mat Xit = Mat(Spectra::verif::Access::lobpcg_X(solver));
             Line l("Lob");
             l.i("n", n).i("k", k).i("qn", q((LD) n)).i("withB", withB_).i("withT", withT).i("maxit", maxit_).i("info", (ll) solver.info()).i("qtol", q((LD) tol_ * n));
-            l.i("thr", 0).i("call", call).i("nev", (ll) ev.size()).i("xrows", (ll) Xp.rows()).i("xcols", (ll) Xp.cols()).i("rrows", (ll) R.rows()).i("rcols", (ll) R.cols());
+            l.i("thr", 0).i("call", call).i("nc", nothrowclaim).i("nev", (ll) ev.size()).i("xrows", (ll) Xp.rows()).i("xcols", (ll) Xp.cols()).i("rrows", (ll) R.rows()).i("rcols", (ll) R.cols());
             l.i("fin", (all_finite(ev) && all_finite(Xp) && all_finite(R)) ? 1 : 0);
             const int kk = (int) std::min<Eigen::Index>(ev.size(), k);
             // eigenvalues: ascending (exact ranks), distance to the k smallest reference eigenvalues
@@ -579,6 +581,15 @@ static void mode_lobpcg(const Desc& d)
                 l.i("qBorth", QNAN).i("qResId", QNAN).i("qResMax", QNAN);
             out().put(l);
         };
+        // history 4: the first call is stopped after a few iterations (the smallest pairs converge first), the second call starts with part of
+        // the block already below the tolerance: its first Rayleigh-Ritz problem has an active block smaller than k.  (If a single column is
+        // left the inner solver throws - the recorded k = 1 finding - so an exception of that second call is not claimed, results are.)
+        if (h4)
+        {
+            run_call(AL, BL, 6 + 4 * (c % 4) + (c / 5) % 3, tol, withB, 1);
+            run_call(AL, BL, 200, tol, withB, 2, 1);
+            continue;
+        }
         run_call(AL, BL, maxit, tol, withB, 1);
         // later calls on the same object (whatever compute() reports describes THIS call and the pencil in force now):
         //   hist 1: a second compute() with a tolerance that cannot be met in one iteration
@@ -586,7 +597,7 @@ static void mode_lobpcg(const Desc& d)
         //   hist 3 (only on request, lobhist=3): the same compute() again.  Not part of the profiles: when a single column is left in the
         //   active block at iteration 0 the inner Rayleigh-Ritz solver is built with ncv <= nev and throws - the recorded k = 1 finding
         //   reached through a call history (see DESIGN.md)
-        const int hist = d.has("lobhist") ? (int) d.i("lobhist") : (c % 5 == 1 ? 1 : (c % 5 == 3 ? 2 : 0));
+        const int hist = d.has("lobhist") ? (int) d.i("lobhist") : (c % 5 == 1 ? 1 : (c % 5 == 3 ? 2 : 0));   // (c % 5 == 2: history 4, above)
         if (hist == 1)
             run_call(AL, BL, 1, 1e-15 * (double) scale, withB, 2);
         else if (hist == 2)
